@@ -212,3 +212,145 @@ Theorem C13_chunked_equals_unchunked : forall bud k chunks cw cok w ok,
   w_accepted w = cw_accepted cw /\ w_n w = cw_n cw /\ w_budget w = cw_budget cw /\ ok = cok.
 Proof. exact chunked_equals_unchunked. Qed.
 Print Assumptions C13_chunked_equals_unchunked.
+
+(* ======================= reads through nested sub-scopes (chains of LimitedReaders) ======================= *)
+(* ======================= a CHAIN of nested io.LimitReaders ======================= *)
+(* C13_reader_agrees above ties the byte-level model to Reader.v for ONE limit counter.  In Go,
+   SubScope(count) wraps the parent's input in another io.LimitReader(count), so a read through
+   a sub-scope goes through a chain of nested LimitedReaders.  Model (IOChain.v), each
+   definition being IO.v's with the counter replaced by the list of counters, innermost first:
+   [lrs_read u lims req] = LimitedReader.Read through the chain (the empty chain is [u_read]),
+   [dr_fill_chain] = the loop of DecodingReader.Read over it, [dr_read_io_chain u lims i mx k]
+   = checkedIndexUpdate + loop.
+   Spec vocabulary (IOChainProofs.v, top): [chain_read_ok data lims i mx k] = the success
+   condition of a k-byte read as a function of the bytes only:
+       (k =? 0) || (negb (two64 - 1 - i <? k) && negb (mx <? i + k)
+                    && forallb (fun l => k <=? l) lims && (k <=? lenN data))
+   spelled out in Prop by C13_chain_read_ok_iff; [delivered], [lenN] as above. *)
+From Ztyp Require Import Base Reader IO IOChain BitfieldsProofs IOProofs IOChainProofs.
+Open Scope N_scope.
+
+(* a'. a one-element chain is exactly IO.v's single LimitReader / dr_read_io *)
+Theorem C13_chain_one_is_lr : forall u l i mx k req,
+  lrs_read u [l] req = (let '(bs, e, u', l') := lr_read u l req in (bs, e, u', [l'])) /\
+  dr_read_io_chain u [l] i mx k =
+    match dr_read_io u l i mx k with
+    | OK (bs, u', l', i') => OK (bs, u', [l'], i')
+    | Err => Err
+    | Panic => Panic
+    end.
+Proof. exact chain_one_is_lr. Qed.
+Print Assumptions C13_chain_one_is_lr.
+
+Theorem C13_chain_read_ok_iff : forall data lims i mx k,
+  chain_read_ok data lims i mx k = true <->
+  k = 0 \/ ((two64 - 1 - i <? k) = false /\ i + k <= mx /\
+            Forall (fun l => k <= l) lims /\ k <= lenN data).
+Proof. exact chain_read_ok_iff. Qed.
+Print Assumptions C13_chain_read_ok_iff.
+
+(* b'. one read through a chain of any depth over a reader that does not fail, with any chunk
+   schedule and either EOF behaviour: the result is a function of the bytes held and of the
+   counters, not of the delivery — it succeeds iff chain_read_ok, and then returns exactly the
+   next k bytes, leaves the rest in the reader, decrements EVERY counter by k, and advances
+   the index by k (exactly what Reader.dr_read does, see c') *)
+Theorem C13_chain_read_value : forall u lims i mx k,
+  u_fail_after u = None ->
+  (chain_read_ok (u_data u) lims i mx k = true ->
+     exists u', dr_read_io_chain u lims i mx k =
+                  OK (firstn (nat_of k) (u_data u), u', map (fun l => l - k) lims, i + k)
+                /\ u_data u' = skipn (nat_of k) (u_data u) /\ u_fail_after u' = None
+                /\ u_eof_with_data u' = u_eof_with_data u
+                /\ exists n, u_chunks u' = skipn n (u_chunks u)) /\
+  (chain_read_ok (u_data u) lims i mx k = false -> dr_read_io_chain u lims i mx k = Err).
+Proof. exact chain_read_value. Qed.
+Print Assumptions C13_chain_read_value.
+
+(* c'. the byte-level chain model agrees with the in-memory reader of Reader.v at every
+   nesting depth: [d_chain d] are the indices of the nested limit readers, [lim_get st] their
+   counters.  NoDup is needed because Reader.consume decrements each index once; reachable
+   chains are NoDup and in range (C13_chain_wf_new / _sub_scope / _read below). *)
+Theorem C13_chain_agrees_with_reader : forall st d u k,
+  NoDup (d_chain d) ->
+  Forall (fun idx => (idx < length (r_lims st))%nat) (d_chain d) ->
+  u_fail_after u = None -> u_data u = r_stream st ->
+  (dr_read_io_chain u (map (lim_get st) (d_chain d)) (d_i d) (d_max d) k = Err
+   <-> dr_read st d k = Err) /\
+  (forall bs st' d', dr_read st d k = OK (bs, st', d') ->
+     exists u',
+       dr_read_io_chain u (map (lim_get st) (d_chain d)) (d_i d) (d_max d) k
+       = OK (bs, u', map (lim_get st') (d_chain d), d_i d') /\
+       u_data u' = r_stream st' /\ u_fail_after u' = None) /\
+  dr_read st d k <> Panic.
+Proof. exact chain_agrees_with_reader. Qed.
+Print Assumptions C13_chain_agrees_with_reader.
+
+(* the two well-formedness conditions hold for NewDecodingReader, are preserved by SubScope —
+   which puts a fresh counter with value [count] in front of the chain — and by reads *)
+Theorem C13_chain_wf_new : forall bs scope st d,
+  new_reader bs scope = (st, d) ->
+  NoDup (d_chain d) /\ Forall (fun idx => (idx < length (r_lims st))%nat) (d_chain d) /\
+  map (lim_get st) (d_chain d) = [scope] /\ r_stream st = bs.
+Proof. exact chain_wf_new. Qed.
+Print Assumptions C13_chain_wf_new.
+
+Theorem C13_chain_wf_sub_scope : forall st d count st' d',
+  dr_sub_scope st d count = OK (st', d') ->
+  NoDup (d_chain d) -> Forall (fun idx => (idx < length (r_lims st))%nat) (d_chain d) ->
+  NoDup (d_chain d') /\ Forall (fun idx => (idx < length (r_lims st'))%nat) (d_chain d') /\
+  map (lim_get st') (d_chain d') = count :: map (lim_get st) (d_chain d) /\
+  r_stream st' = r_stream st /\ d_i d' = 0 /\ d_max d' = count.
+Proof. exact chain_wf_sub_scope. Qed.
+Print Assumptions C13_chain_wf_sub_scope.
+
+Theorem C13_chain_wf_read : forall st d k bs st' d',
+  dr_read st d k = OK (bs, st', d') ->
+  NoDup (d_chain d) -> Forall (fun idx => (idx < length (r_lims st))%nat) (d_chain d) ->
+  NoDup (d_chain d') /\ Forall (fun idx => (idx < length (r_lims st'))%nat) (d_chain d') /\
+  d_chain d' = d_chain d.
+Proof. exact chain_wf_read. Qed.
+Print Assumptions C13_chain_wf_read.
+
+(* d'. schedule independence through a chain: two non-failing readers holding the same bytes
+   (any chunk schedules, any EOF behaviour) give the same result up to the remaining schedule *)
+Theorem C13_chain_schedule_indep : forall u1 u2 lims i mx k,
+  u_fail_after u1 = None -> u_fail_after u2 = None -> u_data u1 = u_data u2 ->
+  match dr_read_io_chain u1 lims i mx k, dr_read_io_chain u2 lims i mx k with
+  | OK (bs1, u1', lims1, i1), OK (bs2, u2', lims2, i2) =>
+      bs1 = bs2 /\ u_data u1' = u_data u2' /\ lims1 = lims2 /\ i1 = i2 /\
+      u_fail_after u1' = None /\ u_fail_after u2' = None
+  | Err, Err => True
+  | _, _ => False
+  end.
+Proof. exact chain_schedule_indep. Qed.
+Print Assumptions C13_chain_schedule_indep.
+
+(* e'. ANY reader (failing or not): if it delivers fewer than k bytes before it ends or fails,
+   or SOME counter of the chain is below k, the read is an error, never a value *)
+Theorem C13_chain_short_stream : forall u lims i mx k,
+  0 < k -> delivered u < k \/ Exists (fun l => l < k) lims ->
+  dr_read_io_chain u lims i mx k = Err.
+Proof. exact chain_short_stream. Qed.
+Print Assumptions C13_chain_short_stream.
+
+(* conversely, for ANY reader: a read that returns a value returns exactly the next k bytes,
+   within what was delivered and within every counter *)
+Theorem C13_chain_value_is_prefix : forall u lims i mx k bs u' lims' i',
+  dr_read_io_chain u lims i mx k = OK (bs, u', lims', i') ->
+  bs = firstn (nat_of k) (u_data u) /\ u_data u' = skipn (nat_of k) (u_data u) /\
+  k <= delivered u /\ Forall (fun l => k <= l) lims /\
+  lims' = map (fun l => l - k) lims /\ i' = i + k.
+Proof. exact chain_value_is_prefix. Qed.
+Print Assumptions C13_chain_value_is_prefix.
+
+(* f'. a two-level chain [3; 10] over 8 bytes delivered one byte at a time
+   ([exc_data] = the first 8 bytes of ex_data, [exc_u] = mkU exc_data [1;1;1;1;1;1;1;1] false None) *)
+Theorem C13_chain_example_read3 :
+  dr_read_io_chain exc_u [3; 10] 0 3 3 =
+  OK (firstn 3 exc_data, mkU (skipn 3 exc_data) [1; 1; 1; 1; 1] false None, [0; 7], 3).
+Proof. exact exc_read3. Qed.
+Print Assumptions C13_chain_example_read3.
+
+Theorem C13_chain_example_read4 : dr_read_io_chain exc_u [3; 10] 0 100 4 = Err.
+Proof. exact exc_read4. Qed.
+Print Assumptions C13_chain_example_read4.
